@@ -370,7 +370,28 @@ def pins_literals(out):
                "; ".join("(%s, %s)" % (T(n), "true" if c else "false") for n, c in inv))
 
 
-SECTIONS = [pins_effector, pins_rolegraph, pins_bodysets, pins_literals]
+def pins_locks(out):
+    """inventory of every lock acquisition on a role-manager / enforcer handle outside test modules:
+    (file, n_sites) and the number of guards BOUND to a variable (held across statements)"""
+    files = ["src/enforcer.rs", "src/macros.rs", "src/rbac_api.rs", "src/model/assertion.rs", "src/model/default_model.rs",
+             "src/internal_api.rs", "src/management_api.rs", "src/cached_enforcer.rs", "src/rbac/default_role_manager.rs"]
+    inv = []
+    bound = 0
+    for rel in files:
+        src = read(rel)
+        cut = src.find("#[cfg(test)]")
+        if cut >= 0:
+            src = src[:cut]
+        src = strip_rust_comments(src)
+        n = len(re.findall(r"\.(?:read|write)\(\)", src))
+        inv.append((rel, n))
+        # a guard bound by let (held until the end of the block)
+        bound += len(re.findall(r"let\s+(?:mut\s+)?\w+\s*(?::[^=;]*)?=\s*[^;]*\.(?:read|write)\(\)\s*;", src))
+    out.append("Definition pin_lock_sites : list (text * nat) := [%s]." % "; ".join("(%s, %d)" % (T(r), n) for r, n in inv))
+    out.append("Definition pin_lock_guards_bound : nat := %d." % bound)
+
+
+SECTIONS = [pins_effector, pins_rolegraph, pins_bodysets, pins_literals, pins_locks]
 
 
 def generate():
